@@ -6,11 +6,11 @@ from common import show_ints, outcome, tmod
 PROP = 'C20'
 LEAN_TARGETS = ['Props.C20']
 REQUIRED_THEOREMS = ['Props.C20.fit_trace', 'Props.C20.steps_count', 'Props.C20.step_discipline_block',
-                     'Props.C20.validation_pure', 'Props.C20.history_shape', 'Props.C20.accuracy_spec']
+                     'Props.C20.validation_pure', 'Props.C20.test_trace', 'Props.C20.history_shape', 'Props.C20.accuracy_spec']
 RULE = ('grid epochs 0..3 x train batches 0..3 x validation (none, 0, 1, 2 batches) x both callbacks x evaluator '
         '(off / 3 label modes) x initial training flag x initial grad mode x initial module tree consistent / with submodules switched on their own, run on the real Trainer with a model holding '
         'BatchNorm and Dropout, recording wrappers around model / optimizer / engine / Tensor.backward; quick samples the '
-        'grid, thorough enumerates it. Non-trivial: at least one epoch and one batch. Plus accuracy cases in 3 modes.')
+        'grid, thorough enumerates it. Non-trivial: at least one epoch and one batch. Trainer.test under both gradient modes, with the Trainer constructed under either mode. Plus accuracy cases in 3 modes.')
 EXHAUSTIVE = {'quick': False, 'thorough': True}
 ASSUMPTIONS = ['pkbar progress bar is stubbed (harness/stubs/pkbar.py)']
 TRUSTED_BASE = ['harness/props/c20.py (recording wrappers, canonicalisation)']
@@ -34,10 +34,23 @@ def cases(rng, tier):
     for c in list(grid):
         if c['e'] >= 1 and (c['ct'], c['cv']) == (0, 0):
             grid.append(dict(c, mix=1 + (c['nt'] + (c['nv'] or 0)) % 3))
+    # the Trainer object constructed under another gradient mode than the one it is used in
+    for c in list(grid):
+        if c['e'] >= 1 and c['nv'] and (c['ct'], c['cv'], c['ev']) == (0, 0, None) and 'mix' not in c:
+            grid.append(dict(c, gc=0))
+    tests = []
+    for nb in range(4):
+        for tr0 in (0, 1):
+            for g0 in (0, 1):
+                for gc in (0, 1):
+                    for mix in (0, 1, 2):
+                        tests.append({'kind': 'test', 'e': 0, 'nt': nb, 'nv': None, 'ct': 0, 'cv': 0, 'ev': None, 'tr0': tr0, 'g0': g0, 'gc': gc, 'mix': mix})
+    if tier == 'quick':
+        tests = rng.sample(tests, 40)
     if tier == 'quick':
         must = [c for c in grid if c['e'] == 2 and c['nt'] == 2 and c['ct'] == 1 and c['cv'] == 1 and c['tr0'] == 0 and c['g0'] == 1]
         grid = must + rng.sample(grid, 220)
-    out = grid
+    out = grid + tests
     for _ in range(30 if tier == 'quick' else 300):
         n = rng.randint(1, 9)
         mode = rng.pick(MODES[1:])
@@ -58,6 +71,8 @@ def _pred(c):
 
 
 def _lines(c):
+    if c['kind'] == 'test':
+        return [f"train test {c['nt']} {c['tr0']} {c['g0']}"]
     if c['kind'] == 'fit':
         nv = '-' if c['nv'] is None else c['nv']
         return [f"train fit {c['e']} {c['nt']} {nv} {c['ct']} {c['cv']} {0 if c['ev'] is None else 1} {c['tr0']} {c['g0']}"]
@@ -147,8 +162,13 @@ def _run_fit(c):
     def bw(self, grad=None):
         trace.append('b'); return orig_bw(self, grad)
     ev = None if c['ev'] is None else Evaluator(mode=c['ev'])
-    tr = Trainer(model, Engine)
-    tr.compile(criterion, Opt(), ev)
+    g_before = tm.gradient__
+    tm.gradient__ = bool(c.get('gc', 1))          # the gradient mode in force while the Trainer object is constructed
+    try:
+        tr = Trainer(model, Engine)
+        tr.compile(criterion, Opt(), ev)
+    finally:
+        tm.gradient__ = g_before
     # validation purity: snapshot before/after every __validate
     vname = '_Trainer__validate'
     orig_val = getattr(tr, vname)
@@ -172,9 +192,16 @@ def _run_fit(c):
     tm.gradient__ = bool(c['g0'])
     sg.Tensor.backward = bw
     try:
-        hist = tr.fit(tl, c['e'], validation_loader=vl, on_train_epoch=cbT if c['ct'] else None,
-                      on_validation_epoch=cbV if c['cv'] else None)
-        g_after = tm.gradient__
+        if c['kind'] == 'test':
+            before = snap()
+            tr.test(tl)
+            g_after = tm.gradient__
+            pure[0] = all(np.array_equal(a, b) for a, b in zip(before, snap()))
+            hist = {}
+        else:
+            hist = tr.fit(tl, c['e'], validation_loader=vl, on_train_epoch=cbT if c['ct'] else None,
+                          on_validation_epoch=cbV if c['cv'] else None)
+            g_after = tm.gradient__
     finally:
         sg.Tensor.backward = orig_bw
         tm.gradient__ = g_before
@@ -191,6 +218,8 @@ def _run_fit(c):
                     ok_mean = False
     flags = {m.training for m in [model] + model.submodules()}
     training = '?' if len(flags) != 1 else str(int(flags.pop()))
+    if c['kind'] == 'test':
+        return (f"trace={','.join(trace) or '_'} steps={trace.count('s')} training={training} grad={int(g_after)}", {'valpure': pure[0], 'lossmean': True})
     return (f"trace={','.join(trace) or '_'} steps={trace.count('s')} training={training} grad={int(g_after)} keys={keys}",
             {'valpure': pure[0], 'lossmean': ok_mean})
 
@@ -218,7 +247,7 @@ def _run_acc(c):
 
 
 def impl(c):
-    if c['kind'] == 'fit':
+    if c['kind'] in ('fit', 'test'):
         r = outcome(lambda: _run_fit(c))
         if r == 'rejected':
             c['_flags'] = {}
@@ -240,7 +269,7 @@ def impl(c):
 
 def compare(c, mo, io):
     diffs = [(k, m, i) for k, (m, i) in enumerate(zip(mo, io)) if m != i]
-    if c['kind'] == 'fit':
+    if c['kind'] in ('fit', 'test'):
         fl = c.get('_flags', {})
         if fl.get('valpure') is False:
             diffs.append(('valpure', 'validation changes no parameter / statistic', 'changed'))
@@ -250,7 +279,7 @@ def compare(c, mo, io):
 
 
 def nontrivial(c):
-    return (c['kind'] == 'fit' and c['e'] > 0 and c['nt'] > 0 and c['g0'] == 1) or (c['kind'] == 'acc' and len(c['labels']) > 1)
+    return (c['kind'] == 'fit' and c['e'] > 0 and c['nt'] > 0 and c['g0'] == 1) or (c['kind'] == 'acc' and len(c['labels']) > 1) or (c['kind'] == 'test' and c['nt'] > 0)
 
 
 def distribution(cases):
@@ -271,6 +300,21 @@ def oracle(c):
         want = sum(1 for a, b in zip(c['labels'], _pred(c)) if a == b) / len(c['labels'])
         if abs(acc - want) > 1e-9:
             return {'key': {'kind': 'acc', 'class': 'value', 'mode': c['mode']}, 'case': c, 'what': f'accuracy {acc}, fraction of correct predictions {want}'}
+        return None
+    if c['kind'] == 'test':
+        r = outcome(lambda: _run_fit(c))
+        if r == 'rejected':
+            return {'key': {'kind': 'test', 'class': 'rejected'}, 'case': c, 'what': 'Trainer.test raised'}
+        line, fl = r
+        f = dict(kv.split('=', 1) for kv in line.split(' '))
+        tr = [] if f['trace'] == '_' else f['trace'].split(',')
+        bad = [e for e in tr if e in ('s', 'b', 'z') or (e.startswith('f') and e != 'f00')]
+        if bad:
+            return {'key': {'kind': 'test', 'class': 'mode'}, 'case': c, 'what': f'test ran {bad[:3]} (needs eval-mode forwards with gradients off, no update)'}
+        if int(f['grad']) != c['g0']:
+            return {'key': {'kind': 'test', 'class': 'gradmode'}, 'case': c, 'what': f"test left the global gradient mode at {f['grad']}, it found {c['g0']} (Trainer constructed under mode {c.get('gc', 1)})"}
+        if not fl['valpure']:
+            return {'key': {'kind': 'test', 'class': 'valpure'}, 'case': c, 'what': 'test changed a parameter or running statistic'}
         return None
     r = outcome(lambda: _run_fit(c))
     legal = c['g0'] == 1 and c['nt'] > 0 and (c['nv'] is None or c['nv'] > 0)
